@@ -145,6 +145,7 @@ def m_option_filter(I, st, c, args, body, t):
                 if r.val is not False:
                     sT = s2.copy()
                     if I.refine(sT, r, True):
+                        I.note_atoms(sT, r, True)
                         gT = guard_from(I, st, sT, g)
                         if r.val is None:
                             gT = dict(gT)
